@@ -22,6 +22,8 @@ struct Case {
    std::vector<std::uint8_t> recipe;   // how T is built
    std::vector<std::uint8_t> chain;    // successive qualifier subsets (1..7 each)
    std::vector<std::uint8_t> regroup;  // a second way of applying qualifiers with the same union
+   std::uint8_t std_prelude = 0;       // 1: the Lexicon first receives the fixed population (66 types x 7 sets, scrambled order)
+   std::vector<std::uint8_t> prelude;  // pairs (type selector, qualifier set): unrelated qualified types requested before the chain
 };
 
 std::string to_text(const Case& c)
@@ -31,6 +33,8 @@ std::string to_text(const Case& c)
    for (auto b : c.recipe) os << "recipe " << int(b) << "\n";
    for (auto b : c.chain) os << "chain " << int(b) << "\n";
    for (auto b : c.regroup) os << "regroup " << int(b) << "\n";
+   if (c.std_prelude) os << "std_prelude " << int(c.std_prelude) << "\n";
+   for (auto b : c.prelude) os << "prelude " << int(b) << "\n";
    return os.str();
 }
 
@@ -45,6 +49,8 @@ bool from_text(const std::string& s, Case& c)
       if (tag == "recipe") c.recipe.push_back(std::uint8_t(v));
       else if (tag == "chain") c.chain.push_back(std::uint8_t(v));
       else if (tag == "regroup") c.regroup.push_back(std::uint8_t(v));
+      else if (tag == "std_prelude") c.std_prelude = std::uint8_t(v);
+      else if (tag == "prelude") c.prelude.push_back(std::uint8_t(v));
    }
    return true;
 }
@@ -114,18 +120,69 @@ void check_node(vf::Outcome& out, impl::Lexicon& L, const Qualified& q, std::uin
    (void)L;
 }
 
-void run_in(Env& e, const Case& c, vf::Outcome& out)
+// Population of the (qualifiers, type) table around the chain under test: requests for unrelated qualified types, each
+// checked like the chain's own (normal form, and the same request always answered by the same node), so that the
+// table is large and has been rebalanced many times when the chain is looked at.
+struct Population {
+   std::map<std::pair<unsigned, unsigned>, const Qualified*> first;   // (type selector, set) -> first answer
+};
+
+const Type& population_type(Env& e, unsigned sel)
 {
    auto& L = e.lex;
-   const Type& T = build(e, c.recipe);
-   if (util::view<Qualified>(T) != nullptr) {
-      out.fail("C11:harness:recipe-produced-qualified", "generator bug");
+   const Type* t = &builtin(L, sel % 11);
+   for (unsigned d = 0; d < (sel / 11) % 6; ++d) t = &L.get_pointer(*t);
+   return *t;
+}
+
+void populate(Env& e, Population& pop, vf::Outcome& out, unsigned sel, unsigned set)
+{
+   sel %= 66;
+   const std::uintptr_t bits = 1u + set % 7u;
+   const Type& t = population_type(e, sel);
+   const Qualified* q = nullptr;
+   try {
+      q = &e.lex.get_qualified(Qualifiers{bits}, t);
+   }
+   catch (const std::exception& ex) {
+      out.fail("C11:nonempty-refused:population", ex.what());
       return;
    }
-   // the empty set is refused
+   check_node(out, e.lex, *q, bits, t, "population");
+   auto ins = pop.first.emplace(std::make_pair(sel, unsigned(bits)), q);
+   if (!ins.second && ins.first->second != q) out.fail("C11:same-request-different-node:population", "the same (qualifiers, type) was answered by two different nodes");
+   out.count("population_requests");
+}
+
+void recheck(Env& e, Population& pop, vf::Outcome& out)
+{
+   for (auto& [key, node] : pop.first) {
+      const Qualified* q = nullptr;
+      try {
+         q = &e.lex.get_qualified(Qualifiers{key.second}, population_type(e, key.first));
+      }
+      catch (const std::exception& ex) {
+         out.fail("C11:nonempty-refused:population", ex.what());
+         continue;
+      }
+      if (q != node) out.fail("C11:same-request-different-node:population", "the same (qualifiers, type) was answered by two different nodes after the table grew");
+   }
+}
+
+void std_population(Env& e, Population& pop, vf::Outcome& out)
+{
+   for (unsigned i = 0; i < 462; ++i) {
+      const unsigned k = (i * 185u + 7u) % 462u;   // 185 is coprime to 462: every (type, set) once, in a scrambled order
+      populate(e, pop, out, k / 7, k % 7);
+   }
+}
+
+// the empty set is refused -- over an unqualified and over an already qualified operand alike
+void expect_empty_refused(vf::Outcome& out, impl::Lexicon& L, const Type& t, const char* where)
+{
    bool refused = false;
    try {
-      (void)&L.get_qualified(Qualifiers{}, T);
+      (void)&L.get_qualified(Qualifiers{}, t);
    }
    catch (const std::logic_error&) {
       refused = true;
@@ -134,7 +191,29 @@ void run_in(Env& e, const Case& c, vf::Outcome& out)
       refused = true;
       out.count("refused_with_non_logic_error");
    }
-   if (!refused) out.fail("C11:empty-not-refused", "get_qualified({}, T) returned a node");
+   if (!refused) out.fail(std::string("C11:empty-not-refused:") + where, "get_qualified({}, T) returned a node");
+   out.count("empty_set_requests");
+}
+
+void run_in(Env& e, const Case& c, vf::Outcome& out)
+{
+   auto& L = e.lex;
+   const Type& T = build(e, c.recipe);
+   if (util::view<Qualified>(T) != nullptr) {
+      out.fail("C11:harness:recipe-produced-qualified", "generator bug");
+      return;
+   }
+   expect_empty_refused(out, L, T, "unqualified-operand");
+   // a request with a non-empty set is answered, never refused
+   auto qualify = [&](std::uintptr_t bits, const Type& t, const char* where) -> const Qualified* {
+      try {
+         return &L.get_qualified(Qualifiers{bits}, t);
+      }
+      catch (const std::exception& ex) {
+         out.fail(std::string("C11:nonempty-refused:") + where, "get_qualified(" + std::to_string(bits) + ", T) raised: " + ex.what());
+         return nullptr;
+      }
+   };
 
    // successive qualification
    std::uintptr_t all = 0;
@@ -142,12 +221,15 @@ void run_in(Env& e, const Case& c, vf::Outcome& out)
    for (std::size_t i = 0; i < c.chain.size(); ++i) {
       const std::uintptr_t bits = 1u + c.chain[i] % 7u;
       all |= bits;
-      const Qualified& q = L.get_qualified(Qualifiers{bits}, *cur);
-      check_node(out, L, q, all, T, "chain");
-      const Qualified& direct = L.get_qualified(Qualifiers{all}, T);
-      if (!physically_same(q, direct)) out.fail("C11:normal-form:chain", "qualifying step " + std::to_string(i) + " did not yield the node of get_qualified(union, T)");
-      check_node(out, L, direct, all, T, "direct");
-      cur = &q;
+      const Qualified* q = qualify(bits, *cur, "chain");
+      if (!q) return;
+      check_node(out, L, *q, all, T, "chain");
+      const Qualified* direct = qualify(all, T, "direct");
+      if (!direct) return;
+      if (!physically_same(*q, *direct)) out.fail("C11:normal-form:chain", "qualifying step " + std::to_string(i) + " did not yield the node of get_qualified(union, T)");
+      check_node(out, L, *direct, all, T, "direct");
+      cur = q;
+      expect_empty_refused(out, L, *cur, "qualified-operand");
    }
    if (c.chain.empty()) return;
    // the same union reached another way: each regroup step contributes the part of the union it names (skipped if empty),
@@ -158,13 +240,16 @@ void run_in(Env& e, const Case& c, vf::Outcome& out)
       const std::uintptr_t bits = (b % 8u) & all;
       if (bits == 0) continue;
       got |= bits;
-      other = &L.get_qualified(Qualifiers{bits}, *other);
+      other = qualify(bits, *other, "regroup");
+      if (!other) return;
    }
-   if (got != all) other = &L.get_qualified(Qualifiers{all & ~got}, *other);
+   if (got != all) other = qualify(all & ~got, *other, "regroup");
+   if (!other) return;
    if (!physically_same(*other, *cur)) out.fail("C11:normal-form:regroup", "a different order / grouping of the same qualifiers gave a different node");
    // re-qualifying with a subset of what is already there changes nothing
-   const Qualified& again = L.get_qualified(Qualifiers{all & (1u + c.chain[0] % 7u)}, *cur);
-   if (!physically_same(again, *cur)) out.fail("C11:normal-form:idempotent", "re-applying qualifiers already present gave a different node");
+   const Qualified* again = qualify(all & (1u + c.chain[0] % 7u), *cur, "idempotent");
+   if (!again) return;
+   if (!physically_same(*again, *cur)) out.fail("C11:normal-form:idempotent", "re-applying qualifiers already present gave a different node");
    out.nontrivial = c.chain.size() >= 2;
    out.count("chain_len_" + std::to_string(std::min<std::size_t>(c.chain.size(), 9)));
    out.count(all == 7 ? "union_cvr" : "union_partial");
@@ -174,7 +259,12 @@ vf::Outcome run_case(const Case& c, const vf::Options&)
 {
    vf::Outcome out;
    Env e;
+   Population pop;
+   if (c.std_prelude) std_population(e, pop, out);
+   for (std::size_t i = 0; i + 1 < c.prelude.size(); i += 2) populate(e, pop, out, c.prelude[i], c.prelude[i + 1]);
    run_in(e, c, out);
+   recheck(e, pop, out);
+   out.classes["max_population"] = long(pop.first.size());
    return out;
 }
 
@@ -182,12 +272,14 @@ rc::Gen<Case> generator(const vf::Options&)
 {
    using namespace rc;
    return gen::map(gen::tuple(gen::container<std::vector<std::uint8_t>>(vf::byte()), gen::container<std::vector<std::uint8_t>>(vf::byte()),
-                              gen::container<std::vector<std::uint8_t>>(vf::byte())),
-                   [](const std::tuple<std::vector<std::uint8_t>, std::vector<std::uint8_t>, std::vector<std::uint8_t>>& t) {
+                              gen::container<std::vector<std::uint8_t>>(vf::byte()), gen::scale(8.0, gen::container<std::vector<std::uint8_t>>(vf::byte())), vf::byte()),
+                   [](const std::tuple<std::vector<std::uint8_t>, std::vector<std::uint8_t>, std::vector<std::uint8_t>, std::vector<std::uint8_t>, std::uint8_t>& t) {
                       Case c;
                       c.recipe = std::get<0>(t);
                       c.chain = std::get<1>(t);
                       c.regroup = std::get<2>(t);
+                      c.prelude = std::get<3>(t);
+                      c.std_prelude = std::get<4>(t) % 8 == 0;
                       if (c.recipe.size() > 6) c.recipe.resize(6);
                       if (c.chain.size() > 12) c.chain.resize(12);
                       if (c.regroup.size() > 8) c.regroup.resize(8);
@@ -203,6 +295,14 @@ void exhaustive(const vf::Options& o, vf::Tally& tally)
    long n = 0;
    for (int r = 0; r < recipes; ++r) {
       Env e;
+      Population pop;
+      {
+         vf::Outcome warm;
+         std_population(e, pop, warm);
+         Case c0;
+         c0.std_prelude = 1;
+         vf::account(o, tally, to_text(c0), "fixed population of the (qualifiers, type) table: 66 types x 7 sets in a scrambled order", warm);
+      }
       std::vector<std::uint8_t> recipe;
       for (int i = 0; i <= r % 5; ++i) recipe.push_back(std::uint8_t(r * 37 + i * 11 + r / 5));
       for (int len = 1; len <= 4; ++len) {
@@ -212,8 +312,16 @@ void exhaustive(const vf::Options& o, vf::Tally& tally)
             c.recipe = recipe;
             c.chain = chain;
             c.regroup = {std::uint8_t(chain.back() + 1), std::uint8_t(4), std::uint8_t(chain[0] + 1)};
+            c.std_prelude = 1;
             vf::Outcome out;
-            run_in(e, c, out);
+            vf::put_current(to_text(c));
+            try {
+               run_in(e, c, out);
+            }
+            catch (const std::exception& ex) {
+               out.fail(std::string("C11:unexpected-exception:") + vf::sanitize(typeid(ex).name()), ex.what());
+            }
+            if (n % 400 == 399) recheck(e, pop, out);
             vf::account(o, tally, to_text(c), sample(c), out);
             ++n;
             int i = len - 1;
